@@ -25,6 +25,7 @@ var files = []genFile{
 	{"ConvReg.lean", genConvReg},
 	{"Conv.lean", genConv},
 	{"Opcodes.lean", genOpcodes},
+	{"AbortOps.lean", genAbortOps},
 }
 
 func main() {
